@@ -33,6 +33,14 @@ from .values import (NONE, V, VBool, VChunks, VClass, VDict, VFunc, VInt, VModul
 # ----------------------------------------------------------------------------------------------
 # signals
 # ----------------------------------------------------------------------------------------------
+STDLIB_CONSTS = {
+    "os.SEEK_SET": 0, "os.SEEK_CUR": 1, "os.SEEK_END": 2, "io.SEEK_SET": 0, "io.SEEK_CUR": 1, "io.SEEK_END": 2,
+    "os.O_RDONLY": 0, "os.O_WRONLY": 1, "os.O_RDWR": 2, "os.O_CREAT": 64, "os.O_EXCL": 128, "os.O_TRUNC": 512, "os.O_APPEND": 1024,
+    "stat.S_IFMT": 0o170000, "stat.S_IFDIR": 0o040000, "stat.S_IFREG": 0o100000, "stat.S_IFLNK": 0o120000,
+    "sys.maxsize": 2 ** 63 - 1,
+}
+
+
 class Sig(Exception):
     pass
 
@@ -925,11 +933,11 @@ class Engine:
                 raise OutOfSubset(s, f"loop {k} rebinds {name!r} which is None before the loop; declare its type in the loop spec")
             if isinstance(cur, VRef) and not declared:
                 # rebinding of a variable holding a reference: keep reference, havoc content
-                mutated.add(name)
+                mutated.setdefault(name, set()).add("*")
                 continue
             owner = frame.owner(name) or frame
             owner.env[name] = self.havoc_like(cur, name, declared)
-        for name in sorted(mutated - keep):
+        for name in sorted(set(mutated) - keep):
             cur = frame.lookup(name)
             if isinstance(cur, VRef):
                 declared = spec.types.get(name) if spec else None
@@ -937,7 +945,7 @@ class Engine:
                     tmp = self.make(declared, name)
                     self.heap[cur.addr] = self.heap.pop(tmp.addr) if isinstance(tmp, VRef) else tmp
                 else:
-                    self.heap[cur.addr] = self.havoc_like(self.heap[cur.addr], name)
+                    self.havoc_effects(cur, mutated[name], name)
         if hidden is not None:
             for hn in list(hidden):
                 if hn.startswith("_it"):
@@ -1185,6 +1193,8 @@ class Engine:
             if isinstance(b, type):
                 return VClass(name)
             return VFunc("model", name=name)
+        if name in self.vf.specs:
+            return VFunc("spec", name=name)
         raise OutOfSubset(node, f"unresolved name {name!r}")
 
     def resolve_dotted(self, dotted, node):
@@ -1214,6 +1224,9 @@ class Engine:
             return VOpaque(tag=dotted)
         if self.models.has_model(dotted):
             return VFunc("model", name=dotted)
+        if dotted in STDLIB_CONSTS:
+            c = STDLIB_CONSTS[dotted]
+            return VInt(c) if isinstance(c, int) else VStr(c)
         top = parts[0]
         if len(parts) == 1:
             return VModule(top)
@@ -1243,6 +1256,8 @@ class Engine:
             if attr in b.fields:
                 return b.fields[attr]
             # property / method under contract?
+            if (b.cls, attr) in self.models.OBJ_MODELS:
+                return VFunc("bound", recv=base, name=attr)
             con = C.find_method(b.cls, attr)
             if con is not None and con.options.get("property"):
                 return self.call_contract(con, [base], {}, node, frame)
@@ -1300,7 +1315,14 @@ class Engine:
 
     def ev_BoolOp(self, e, frame):
         if self.spec:
-            ts = [self.truth(self.eval(x, frame)) for x in e.values]
+            # specification connectives are total: an operand that is ill-typed on this path
+            # (e.g. len(data) where data is None here) denotes an unconstrained truth value
+            ts = []
+            for x in e.values:
+                try:
+                    ts.append(self.truth(self.eval(x, frame)))
+                except (OutOfSubset, EngineError, AttributeError, TypeError):
+                    ts.append(fresh_bool("illtyped"))
             return VBool(z3.And(ts) if isinstance(e.op, ast.And) else z3.Or(ts))
         v = None
         for i, x in enumerate(e.values):
@@ -1316,7 +1338,11 @@ class Engine:
 
     def ev_IfExp(self, e, frame):
         if self.spec:
-            c = self.truth(self.eval(e.test, frame))
+            c = z3.simplify(self.truth(self.eval(e.test, frame)))
+            if z3.is_true(c):
+                return self.eval(e.body, frame)
+            if z3.is_false(c):
+                return self.eval(e.orelse, frame)
             a = self.eval(e.body, frame)
             b = self.eval(e.orelse, frame)
             return self.ite(c, a, b, e)
@@ -1624,6 +1650,9 @@ class Engine:
                     fn, _ = mod.find_function(con.func)
                     return self.inline_call(VFunc("def", module=mod, qualname=con.func, node=fn, frame=None, name=name), [recv] + args, kwargs, node)
                 return self.call_contract(con, [recv] + args, kwargs, node, frame)
+            om = self.models.OBJ_MODELS.get((r.cls, name))
+            if om is not None:
+                return om(self, recv, args, kwargs, node)
             loc = self.vf.find_method_def(r.cls, name)
             cur = getattr(self.vf, "current", None)
             if loc is not None and cur is not None and (f"{loc[2]}.{name}" in cur.inline or self.vf.inline_all):
@@ -1642,6 +1671,73 @@ class Engine:
             if self.branch(fresh_bool("opaque_raises"), free=True):
                 raise PyExc(None, site=getattr(node, "lineno", None), any_of="Exception")
         return VOpaque(tag=f"ret:{what}")
+
+    def havoc_effects(self, ref, effects, name):
+        """Havoc the part of the heap object behind `ref` that the syntactic effects may change."""
+        cur = self.heap[ref.addr]
+        if not isinstance(cur, VObj):
+            self.heap[ref.addr] = self.havoc_like(cur, name)
+            return
+        fields = set()
+        whole = False
+        for eff in effects:
+            if eff == "*":
+                whole = True
+            elif isinstance(eff, tuple):
+                meth = eff[1]
+                if (cur.cls, meth) in self.models.OBJ_MODELS:
+                    whole = True
+                    continue
+                con = C.find_method(cur.cls, meth)
+                if con is None:
+                    whole = True
+                else:
+                    for m in con.modifies:
+                        if m.startswith("self."):
+                            fields.add(m[5:])
+            else:
+                fields.add(eff)
+        if whole:
+            self.deep_havoc(ref, name, 0)
+            return
+        cs = C.CLASS_SPECS.get(cur.cls)
+        for f in sorted(fields):
+            o = self.heap[ref.addr]
+            sub = f.endswith(".*") or "." in f
+            fld = f.split(".")[0]
+            curv = o.fields.get(fld)
+            declared = cs.fields.get(fld) if cs else None
+            nf = dict(o.fields)
+            if sub:
+                if isinstance(curv, VRef):
+                    self.deep_havoc(curv, f"{name}.{fld}", 1)
+                continue
+            if declared and (curv is None or isinstance(curv, (VNone, VRef)) or declared.endswith("?")):
+                nf[fld] = self.make(declared, f"{name}.{fld}")
+            elif isinstance(curv, VRef):
+                self.deep_havoc(curv, f"{name}.{fld}", 1)
+            elif curv is not None:
+                nf[fld] = self.havoc_like(curv, f"{name}.{fld}")
+            self.heap[ref.addr] = VObj(o.cls, nf, o.ident)
+
+    def deep_havoc(self, ref, name, depth):
+        cur = self.heap[ref.addr]
+        if isinstance(cur, VObj):
+            cs = C.CLASS_SPECS.get(cur.cls)
+            nf = {}
+            for f, x in cur.fields.items():
+                declared = cs.fields.get(f) if cs else None
+                if isinstance(x, VRef):
+                    if depth < 3:
+                        self.deep_havoc(x, f"{name}.{f}", depth + 1)
+                    nf[f] = x if not (declared and declared.endswith("?")) else self.make(declared, f"{name}.{f}")
+                elif declared and (isinstance(x, VNone) or declared.endswith("?")):
+                    nf[f] = self.make(declared, f"{name}.{f}")
+                else:
+                    nf[f] = self.havoc_like(x, f"{name}.{f}")
+            self.heap[ref.addr] = VObj(cur.cls, nf, cur.ident)
+        else:
+            self.heap[ref.addr] = self.havoc_like(cur, name)
 
     def havoc_reachable(self, v, depth=0):
         if isinstance(v, VRef) and depth < 3:
@@ -1691,20 +1787,27 @@ class Engine:
             elif mname in bound and isinstance(bound[mname], VRef):
                 self.heap[bound[mname].addr] = self.havoc_like(self.heap[bound[mname].addr], mname)
             elif "." in mname:
-                base, fld = mname.split(".", 1)
-                b = bound.get(base)
+                parts = mname.split(".")
+                b = bound.get(parts[0])
+                # walk to the object that owns the last field
+                for fld in parts[1:-1]:
+                    if isinstance(b, VRef) and isinstance(self.heap[b.addr], VObj):
+                        b = self.get_attr(b, fld, node, frame)
+                    else:
+                        b = None
+                fld = parts[-1]
                 if isinstance(b, VRef) and isinstance(self.heap[b.addr], VObj):
                     o = self.heap[b.addr]
                     nf = dict(o.fields)
                     cs = C.CLASS_SPECS.get(o.cls)
                     declared = cs.fields.get(fld) if cs else None
                     curv = nf.get(fld)
-                    if isinstance(curv, VRef):
+                    if declared and (curv is None or isinstance(curv, VNone) or declared.endswith("?") or declared.startswith("obj:")):
+                        nf[fld] = self.make(declared, mname)      # may become another object / None
+                    elif isinstance(curv, VRef):
                         self.heap[curv.addr] = self.havoc_like(self.heap[curv.addr], mname)
                     elif curv is not None:
-                        nf[fld] = self.havoc_like(curv, mname, declared if isinstance(curv, VNone) else None)
-                    elif declared:
-                        nf[fld] = self.make(declared, mname)
+                        nf[fld] = self.havoc_like(curv, mname)
                     self.heap[b.addr] = VObj(o.cls, nf, o.ident)
         saved_old = self.old_state
         self.old_state = old
